@@ -1342,7 +1342,7 @@ class SubElementTextListProperty(_ElementListProperty):
         nodes = node.findall(self._sub_element_name)
         if self.value_class is str:
             return [_node.text for _node in nodes]
-        return [self.value_class(_node.text) for _node in nodes]
+        return [None if _node.text is None else self.value_class(_node.text) for _node in nodes]
 
     def update_xml_value(self, instance: Any, node: xml_utils.LxmlElement):
         """Write value to node."""
@@ -1361,7 +1361,7 @@ class SubElementTextListProperty(_ElementListProperty):
         for val in py_value:
             child = etree.SubElement(node, self._sub_element_name)
             try:
-                child.text = val if isinstance(val, str) else str(val)
+                child.text = val if val is None or isinstance(val, str) else str(val)
             except TypeError as ex:
                 # re-raise with better info about data
                 raise TypeError(f'{ex} in {self}') from ex  # noqa: EM102
